@@ -35,6 +35,30 @@ type runResp struct {
 
 func init() {
 	vh.RegisterChild("c02run", childRun)
+	// debugging aid: `vh __child c02parse files…` prints ok / parse-error per file
+	vh.RegisterChild("c02parse", func(args []string) int {
+		env := vh.NewEnv()
+		for _, f := range args {
+			b, err := os.ReadFile(f)
+			if err != nil {
+				continue
+			}
+			func() {
+				defer func() {
+					if r := recover(); r != nil {
+						os.Stdout.WriteString(f + " panic\n")
+					}
+				}()
+				_, acl := env.Parser.Clone().ParseString(string(b), f)
+				if acl != nil {
+					os.Stdout.WriteString(f + " parse-error\n")
+				} else {
+					os.Stdout.WriteString(f + " ok\n")
+				}
+			}()
+		}
+		return 0
+	})
 	// debugging aid: `vh __child c02nodes < file.php` prints the parser's node tree
 	vh.RegisterChild("c02nodes", func(args []string) int {
 		b, _ := io.ReadAll(os.Stdin)
@@ -125,7 +149,7 @@ func (w *worker) kill() {
 	w.cmd.Wait()
 }
 
-const runTimeout = 10 * time.Second
+const runTimeout = 3 * time.Second
 
 // pool keeps its worker processes for the whole run.
 type pool struct {
